@@ -69,3 +69,13 @@ Definition zmax_list0 (l : list Z) : Z := match l with [] => 0 | x :: r => fold_
 (* ---- recursion depth: the regenerated recursive procedures thread explicit fuel like the model ---- *)
 Definition obind {A B} (x : option A) (k : A -> option B) : option B :=
   match x with Some a => k a | None => None end.
+
+(* ---- dictionaries keyed by fitness ---- *)
+(* dict.fromkeys(l, v): keys in order of first occurrence *)
+Definition fromkeys (l : list wvals) (v : Z) : fmap := fold_left (fun m k => kset m k v) l [].
+
+(* l[i].extend(x) on a list of lists (IndexError -> unchanged) *)
+Definition py_extend_at {A} (l : list (list A)) (i : Z) (x : list A) : list (list A) :=
+  let n := zlen l in
+  let j := if i <? 0 then i + n else i in
+  if (j <? 0) || (n <=? j) then l else app_at l (Z.to_nat j) x.
